@@ -15,12 +15,22 @@
                      returned by the batch query (cand_complete) is an oracle contract that
                      the harness validates against brute force on every query it runs; it is
                      not proved from a model of covertree.hpp.
+     cover tree query  CoverTree_Model.v is an executable model of the batch query (descend, shell,
+                     copy_zero_set, copy_cover_sets, brute_nearest, the k-vector of upper bounds) run on
+                     the dumped REAL tree.  ct_query_complete_partial: for every metric and every tree
+                     satisfying ct_inv_b, every row the model returns with a true audit flag contains
+                     every sample with fewer than K strictly closer samples; ct_prune_*_sound are the
+                     triangle-inequality lemmas behind each pruning test; covertree_model_exact_partial
+                     composes this with the selection.  PARTIAL: the audit flag (upper_bound[0] is
+                     a valid bound whenever it is read, in the strengthened form copy_* needs) is
+                     evaluated by the extracted model on every run, not proved; neither is the
+                     construction of the tree (ct_inv_b is checked on every dumped tree).
      *_checked_*     the same theorems with their hypotheses replaced by the boolean
                      checkers the harness runs on what it observes (dumped real VP-tree,
                      observed nth_element result, observed candidate list). *)
 From Coq Require Import List ZArith Bool Lia Permutation Sorted.
 From TK Require Import Knn_Spec Knn_Brute_Model Knn_Brute_Proof Knn_VpTree_Model Knn_VpTree_Proof
-                       Knn_CoverSel_Model Knn_CoverSel_Proof.
+                       Knn_CoverSel_Model Knn_CoverSel_Proof CoverTree_Model CoverTree_Proof Knn_CoverQuery_Proof.
 Import ListNotations.
 Local Open Scope Z_scope.
 
@@ -246,3 +256,94 @@ Theorem ct_select_count_refuted :
     ct_select (q :: cands) k = Some l /\ length l = S k.
 Proof. exact ct_select_count_refuted_lemma. Qed.
 Print Assumptions ct_select_count_refuted.
+
+(* ---------------- cover tree: the batch query ---------------- *)
+
+(* descend (and the final filter): a sample farther than upper_bound[0] + 2 max_dist(Q) from the query
+   node's point is needed by no query below Q *)
+Theorem ct_prune_descend_sound :
+  forall (d : dist) (pts : list Z) (K : nat) (dom : Z -> Prop),
+  (forall x y : Z, dom x -> dom y -> dd d x y = dd d y x) ->
+  (forall x y z : Z, dom x -> dom y -> dom z -> dd d x z <= dd d x y + dd d y z) ->
+  (forall x : Z, In x pts -> dom x) ->
+  forall (Q : ctree) (ub : list ext) (v q' x : Z),
+  node_ok d pts Q -> valid_b d pts K false Q ub = true -> ub0 ub = Some v ->
+  In q' (leaf_points Q) -> v + c_maxd Q + c_maxd Q < dd d (c_p Q) x -> dom x ->
+  ~ needed d pts K q' x.
+Proof. exact audit_descend. Qed.
+Print Assumptions ct_prune_descend_sound.
+
+(* copy_zero_set / copy_cover_sets: a sample farther than new_upper_bound[0] + max_dist(query_chi) *)
+Theorem ct_prune_copy_sound :
+  forall (d : dist) (pts : list Z) (K : nat) (dom : Z -> Prop),
+  (forall x y z : Z, dom x -> dom y -> dom z -> dd d x z <= dd d x y + dd d y z) ->
+  (forall x : Z, In x pts -> dom x) ->
+  forall (qc : ctree) (ub : list ext) (v q' x : Z),
+  node_ok d pts qc -> valid_b d pts K true qc ub = true -> ub0 ub = Some v ->
+  In q' (leaf_points qc) -> v + c_maxd qc < dd d (c_p qc) x -> dom x ->
+  ~ needed d pts K q' x.
+Proof. exact audit_copy. Qed.
+Print Assumptions ct_prune_copy_sound.
+
+Example ct_prune_nonvacuous :
+  node_ok grid9_d (leaf_points grid9_ctree) grid9_ctree /\
+  valid_b grid9_d (leaf_points grid9_ctree) 2 false grid9_ctree [Some 1; Some 0] = true /\
+  valid_b grid9_d (leaf_points grid9_ctree) 2 true grid9_ctree [Some 1; Some 0] = true.
+Proof. split; [split; [vm_compute; reflexivity | apply incl_refl]|]. vm_compute. auto. Qed.
+
+(* PARTIAL (see the reading guide): completeness of the model of the batch query *)
+Theorem ct_query_complete_partial : forall d dom top K fuel rows,
+  metric_on dom d -> (forall x, In x (leaf_points top) -> dom x) ->
+  ct_inv_b d top = true -> is_leaf top = false ->
+  ct_query d K (valid_b d (leaf_points top) K) fuel top = Some (rows, true) ->
+  forall q cands, In (q, cands) rows ->
+    In q (leaf_points top) /\
+    forall x, In x (leaf_points top) ->
+      (length (filter (fun y => (dd d q y <? dd d q x)%Z) (leaf_points top)) < K)%nat -> In x cands.
+Proof. exact ct_query_complete_partial_lemma. Qed.
+Print Assumptions ct_query_complete_partial.
+
+Example ct_query_complete_partial_nonvacuous :
+  metric_on (in_range 9) grid9_d /\ (forall x, In x (leaf_points grid9_ctree) -> in_range 9 x) /\
+  ct_inv_b grid9_d grid9_ctree = true /\ is_leaf grid9_ctree = false /\
+  exists rows, ct_query grid9_d 4 (valid_b grid9_d (leaf_points grid9_ctree) 4) (ct_fuel grid9_ctree) grid9_ctree
+               = Some (rows, true) /\ length rows = 9%nat.
+Proof.
+  split; [apply metric_b_sound; vm_compute; reflexivity|].
+  split; [intros x Hx; unfold in_range; cbn in Hx; cbn; lia|].
+  split; [vm_compute; reflexivity|]. split; [reflexivity|].
+  eexists. split; [vm_compute; reflexivity | reflexivity].
+Qed.
+
+Theorem needed_gives_cand_complete : forall d N q k pts cands,
+  Permutation pts (samples N) -> in_range N q -> (k < N)%nat ->
+  NoDup cands -> (forall j, In j cands -> in_range N j) ->
+  (forall x, In x pts ->
+     (length (filter (fun y => (dd d q y <? dd d q x)%Z) pts) < S k)%nat -> In x cands) ->
+  cand_complete d N q k cands.
+Proof. exact needed_cand_complete. Qed.
+Print Assumptions needed_gives_cand_complete.
+
+Theorem covertree_model_exact_partial : forall d N top k fuel rows q cands,
+  metric_on (in_range N) d -> (k < N)%nat ->
+  ct_inv_b d top = true -> ct_holds_b N top = true -> is_leaf top = false ->
+  ct_query d (S k) (valid_b d (leaf_points top) (S k)) fuel top = Some (rows, true) ->
+  In (q, cands) rows -> nodup_b cands = true ->
+  forallb (fun j => (0 <=? j) && (j <? Z.of_nat N)) cands = true ->
+  exists l, ct_select_fixed d (q :: cands) k = Some l /\ is_knn d N q k l.
+Proof. exact covertree_model_exact_partial_lemma. Qed.
+Print Assumptions covertree_model_exact_partial.
+
+Example covertree_model_exact_partial_nonvacuous :
+  metric_on (in_range 9) grid9_d /\ (3 < 9)%nat /\ ct_inv_b grid9_d grid9_ctree = true /\
+  ct_holds_b 9 grid9_ctree = true /\ is_leaf grid9_ctree = false /\
+  exists rows, ct_query grid9_d 4 (valid_b grid9_d (leaf_points grid9_ctree) 4) (ct_fuel grid9_ctree) grid9_ctree
+               = Some (rows, true) /\
+    In (0, [6; 4; 2; 0; 3; 1]) rows /\ nodup_b [6; 4; 2; 0; 3; 1] = true /\
+    forallb (fun j => (0 <=? j) && (j <? Z.of_nat 9)) [6; 4; 2; 0; 3; 1] = true.
+Proof.
+  split; [apply metric_b_sound; vm_compute; reflexivity|]. split; [lia|].
+  split; [vm_compute; reflexivity|]. split; [vm_compute; reflexivity|]. split; [reflexivity|].
+  eexists. split; [vm_compute; reflexivity|]. split; [|split; vm_compute; reflexivity].
+  cbn. tauto.
+Qed.
